@@ -37,17 +37,29 @@ def record(py_model, n, length, seed):
         for _ in range(length):
             r = rnd.random()
             c = rnd.choice(names)
-            if r < 0.35:
+            if r < 0.3:
                 b = rnd.choice([8, 10, 12])
                 op = {"op": "quote", "c": c, "x": (b, 1), "y": (b + rnd.choice([0, 2]), 1)}
-            elif r < 0.65:
+            elif r < 0.34:
+                # a quote that loses one side (NaN), or a discontinuation (rare)
+                b = rnd.choice([8, 12])
+                side = rnd.choice(["bid", "ask", "disc"])
+                op = {"op": "disc", "c": c} if (side == "disc" and rnd.random() < 0.3) else \
+                    {"op": "quote", "c": c, "x": (0, 0) if side == "bid" else (b, 1), "y": (0, 0) if side != "bid" else (b, 1)}
+            elif r < 0.55:
                 op = {"op": "trade", "c": c, "x": (rnd.choice([-3, -2, -1, 1, 2, 3]), 1), "y": "-"}
+            elif r < 0.65:
+                # an order priced on another book than the current one
+                b = rnd.choice([8, 10, 12])
+                op = {"op": "tradeat", "c": c, "x": (rnd.choice([-2, -1, 1, 2]), 1), "tb": (b, 1), "ta": (b + rnd.choice([0, 2]), 1)}
             elif r < 0.75:
                 op = {"op": "mark", "c": c}
             elif r < 0.8:
                 op = {"op": "markall", "c": "-"}
-            elif r < 0.92:
+            elif r < 0.88:
                 op = {"op": "value", "c": "-", "x": rnd.random() < 0.5}
+            elif r < 0.92:
+                op = {"op": "context", "c": "-"}
             else:
                 clk += 1
                 k = rnd.sample(names, rnd.randint(0, len(names)))
@@ -66,6 +78,13 @@ def record(py_model, n, length, seed):
                 line["x"] = list(op["x"])
                 if out == "ok":
                     line["chk"] = [op["c"]]
+            elif op["op"] == "tradeat":
+                line["x"], line["tb"], line["ta"] = list(op["x"]), list(op["tb"]), list(op["ta"])
+                if out == "ok" and w.liq_price(op["c"]) == w.liq_price(op["c"]):
+                    line["chk"] = [op["c"]]
+            elif op["op"] == "context":
+                if out in ("ok", "broke"):
+                    line["chk"] = names
             elif op["op"] == "value":
                 line["flag"] = bool(op["x"])
                 if out in ("ok", "broke"):
